@@ -70,6 +70,26 @@ check("C14", "model_checking",
       "decided by round-trip equality, not modelled.",
       "TLA+ spec (ClaimsJson) + TLC exhaustive MC + TLC observation-set validation", "§4 C14")
 
+TERM_NOTE = ("Trusted: TLC; each primitive library as a primitive only (RustCrypto vs aws-lc/libsodium are forced to agree through the terms); "
+             "the evaluator (knows no PASETO; its base64 and counter-increment primitives are themselves validated against Base64Url.tla / "
+             "Ctr.tla); L1's fidelity to the PASETO/PASERK texts. Derived-IV counter wrap (v3 local, PIE, PKE) is not reachable without a hook.")
+check("C03", "model_checking",
+      "Construct.tla (L1) defines every token construction as a term; TLC prints the term for each (version, purpose, length tuple) and checks "
+      "its layout arithmetic; the real seal output must equal the independently evaluated term (caller nonce and library randomness), "
+      "randomized signatures must verify under an independent verifier over the spec-computed bytes, and spec-built reference tokens for "
+      "boundary nonces (incl. embedded IVs that wrap the low 64 counter bits) must be accepted with the same claims on every backend.",
+      TERM_NOTE, "TLA+ L1 spec (Construct, Crypto, Ctr) + TLC term generation + evaluation with independent primitives + TLC observation-set validation", "§3.4, §4 C03")
+check("C07", "model_checking",
+      "As C03 for PIE, PBKW (concrete big-endian parameter block in the term) and PKE (X25519 / P-384 ECDH / RSA-KEM at fixed width): backward "
+      "and scripted-RNG forward equality, and spec-built reference blobs (nonces 00.., ff.., ..fe, low-64-ones) must unwrap to the same key on "
+      "every backend of the version.", TERM_NOTE,
+      "TLA+ L1 spec (Construct) + TLC term generation + evaluation with independent primitives + TLC observation-set validation", "§4 C07")
+check("C13", "model_checking",
+      "Construct!KeyIdBytes/KeyIdText/KeyText terms evaluated with the independent hash must equal Key::id() bytes and text and the key's PASERK "
+      "text for local/public/secret keys of every backend (generated, boundary, fixture keys), stable across clone and reparse; key-id text "
+      "strictness (33-byte rule) is validated by C09's TextFormat observations.", TERM_NOTE,
+      "TLA+ L1 spec (Construct) + TLC term generation + evaluation with independent primitives + TLC observation-set validation", "§4 C13")
+
 
 def na(pid, reason):
     NOT_APPLICABLE[pid] = reason
